@@ -664,7 +664,7 @@ Definition ex_schema : schema :=
     (FCons FPlain (SSlice L32 (mkAR 0 3 true true false false [] true) (SInt true W1))
     (FCons FPlain (SIface Den8 (ACons 1 (SPtr (SStruct (Some (TC8 1)) (FCons FPlain SU256 FNil))) ANil)) FNil)))).
 Definition ex_value : value :=
-  VL [VMap [(VInt 513, VBytes [104; 105]); (VInt 2, VBytes [])]; VL [VBool true]; VL [VInt 5; VInt (-1)];
+  VL [VMap [(VInt 2, VBytes []); (VInt 513, VBytes [104; 105])]; VL [VBool true]; VL [VInt (-1); VInt 5];
       VIface 1 (VL [VBig 258])].
 
 Example roundtrip_nonvacuous :
@@ -676,11 +676,12 @@ Proof.
   - cbn. unfold W32. repeat split; auto; lia.
   - cbn. repeat split; auto.
   - cbn. repeat (first [exact I | apply Forall_nil | apply Forall_cons | split]); try (vm_compute; discriminate).
-    intros done x todo H y Hy. vm_compute in H.
-    destruct done as [| d0 done]; [destruct Hy |].
-    destruct done as [| d1 done].
+    intros done x todo H y Hy.
+    match type of H with ?L = _ => let v := eval vm_compute in L in change L with v in H end.
+    destruct done as [| d0 [| d1 done]]; simpl in H.
+    + destruct Hy.
     + injection H as <- <- <-. destruct Hy as [<- | []]. vm_compute. reflexivity.
-    + injection H as _ _ H. destruct done; simpl in H; discriminate.
+    + injection H as _ _ H. destruct done; discriminate.
   - eexists. split; [vm_compute; reflexivity |]. split; [vm_compute; reflexivity |]. split; [vm_compute; reflexivity |].
     vm_compute. discriminate.
 Qed.
